@@ -167,7 +167,12 @@ func (c *Conn) AsyncRead() {
 	// be re-dispatched before this reading event has been handled and set again.
 	if g.isOneshot {
 		g.IOExecute(func(pbuf *[]byte) {
+			// the buffer is cut to the bytes read for the callback and has to
+			// get its full length back for the next read.
+			bufLen := len(*pbuf)
+			defer func() { *pbuf = (*pbuf)[:bufLen] }()
 			for i := 0; i < g.MaxConnReadTimesPerEventLoop; i++ {
+				*pbuf = (*pbuf)[:bufLen]
 				rc, n, err := c.ReadAndGetConn(pbuf)
 				if n > 0 {
 					*pbuf = (*pbuf)[:n]
@@ -183,7 +188,7 @@ func (c *Conn) AsyncRead() {
 					_ = c.closeWithError(err)
 					return
 				}
-				if n < len(*pbuf) && !c.IsUDP() {
+				if n < bufLen && !c.IsUDP() {
 					break
 				}
 			}
@@ -213,9 +218,14 @@ func (c *Conn) AsyncRead() {
 	}
 
 	g.IOExecute(func(pBuf *[]byte) {
+		// the buffer is cut to the bytes read for the callback and has to
+		// get its full length back for the next read.
+		bufLen := len(*pBuf)
+		defer func() { *pBuf = (*pBuf)[:bufLen] }()
 		for {
 			// try to read all the data available.
 			for i := 0; i < g.MaxConnReadTimesPerEventLoop; i++ {
+				*pBuf = (*pBuf)[:bufLen]
 				rc, n, err := c.ReadAndGetConn(pBuf)
 				if n > 0 {
 					*pBuf = (*pBuf)[:n]
@@ -231,7 +241,7 @@ func (c *Conn) AsyncRead() {
 					_ = c.closeWithError(err)
 					return
 				}
-				if n < len(*pBuf) && !c.IsUDP() {
+				if n < bufLen && !c.IsUDP() {
 					break
 				}
 			}
